@@ -647,6 +647,69 @@ def replay_bd_gradient_range(args):
     return (False, "; ".join(bad)) if bad else (True, "held")
 
 
+_GROWTH_GRAD_CASES = {
+    "exponential,growth=0": ("exp", [0.0, 0.0, 0.0, 0.0], [2.0, 6.0, 12.0], 3.0, [0.0], None),
+    "exponential,growth=1e-10": ("exp", [0.0, 0.0, 0.0, 0.0], [2.0, 6.0, 12.0], 3.0, [1e-10], None),
+    "exponential,growth=1e-8": ("exp", [0.0, 0.0, 0.0, 0.0], [2.0, 6.0, 12.0], 3.0, [1e-8], None),
+    "exponential,growth=-1e-7,serial": ("exp", [0.0, 0.5, 0.0], [1.0, 2.0], 3.0, [-1e-7], None),
+    "exponential,growth=0.3": ("exp", [0.0, 0.5, 0.0], [1.0, 2.0], 3.0, [0.3], None),
+    "piecewise exponential,growth=[0,0]": ("pexp", [0.0, 0.0, 0.0], [1.0, 2.0], 3.0, [0.0, 0.0], [1.5]),
+    "piecewise exponential,growth=[1e-10,0.3]": ("pexp", [0.0, 0.0, 0.0], [1.0, 2.0], 3.0, [1e-10, 0.3], [1.5]),
+    "piecewise exponential,growth=[0.4,-0.2]": ("pexp", [0.0, 0.0, 0.0], [1.0, 2.0], 3.0, [0.4, -0.2], [1.5]),
+}
+
+
+def _growth_gradient_problems(label):
+    import mpmath
+    import torchtree.evolution.coalescent as co
+    from specs import kingman
+    model, tips, internal, theta, growth, grid = _GROWTH_GRAD_CASES[label]
+    mpmath.mp.dps = 60
+    M = mpmath.mpf
+
+    def ref(th, gs):
+        demo = kingman.Exponential(th, gs[0]) if model == "exp" else kingman.GridExponential(th, list(gs), [M(g) for g in grid])
+        return kingman.log_density([M(t) for t in tips], [M(t) for t in internal], demo)
+    t64 = lambda v: torch.tensor(v, dtype=torch.float64)
+    th = t64([theta]).requires_grad_(True)
+    g = t64(growth).requires_grad_(True)
+    dist = co.ExponentialCoalescent(th, g) if model == "exp" else co.PiecewiseExponentialCoalescentGrid(th, g, t64(grid))
+    v = dist.log_prob(t64(tips + internal)).sum()
+    if not bool(torch.isfinite(v)):
+        return ["the log density itself is %s" % float(v)], 0
+    v.backward()
+    bad, n = [], 0
+    # exact derivatives of the Kingman density of N(t) by central differences in 60-digit arithmetic (step 1e-20: truncation error 1e-40)
+    hh = M(10) ** -20
+    want_theta = (ref(M(theta) + hh, [M(x) for x in growth]) - ref(M(theta) - hh, [M(x) for x in growth])) / (2 * hh)
+    checks = [("theta", float(th.grad[0]), float(want_theta))]
+    for i in range(len(growth)):
+        up = [M(x) + (hh if j == i else 0) for j, x in enumerate(growth)]
+        dn = [M(x) - (hh if j == i else 0) for j, x in enumerate(growth)]
+        checks.append(("growth[%d]" % i, float(g.grad[i]), float((ref(M(theta), up) - ref(M(theta), dn)) / (2 * hh))))
+    for name, got, want in checks:
+        n += 1
+        if not (abs(got - want) <= 1e-6 * max(1.0, abs(want))):
+            bad.append("d/d %s: autograd %.9g, derivative of the Kingman density %.9g" % (name, got, want))
+    return bad, n
+
+
+def ob_growth_gradient(label):
+    def body():
+        bad, n = _growth_gradient_problems(label)
+        if bad:
+            raise Refuted("%s: %s" % (label, "; ".join(bad)), witness={"case": label, "problems": bad},
+                          replay={"kind": "custom", "contract": "C12", "func": "replay_growth_gradient", "args": {"case": label}}, confirmed=True)
+        return {"backend": "real autograd vs 60-digit derivative", "cases": n, "statement": "%s: %d partial derivatives agree with the derivative of the Kingman density to 1e-6" % (label, n)}
+    return Ob("C12.coalescent.growth_gradient[%s]" % label, "B", body,
+              clause="gradient = derivative of the reported value at and near growth 0 (interior points of the domain of the exponential models)", funcs=FUNCS)
+
+
+def replay_growth_gradient(args):
+    bad, _ = _growth_gradient_problems(args["case"])
+    return (False, "; ".join(bad)) if bad else (True, "held")
+
+
 _PARAM_FORMS = {
     "tensor": {"tensor": [0.5, 1.5]},
     "tensor+dimension": {"tensor": [0.5], "dimension": 3},
@@ -819,6 +882,8 @@ def obligations(tier, seed):
         obs.append(ob_prior_gradient(label))
     for form in _PARAM_FORMS:
         obs.append(ob_parameter_json_gradient(form))
+    for label in _GROWTH_GRAD_CASES:
+        obs.append(ob_growth_gradient(label))
     for which in ("skyline", "constant"):
         for delta in (1, 20, 25, 31, 60):
             obs.append(ob_bd_gradient_range(which, delta))
